@@ -29,6 +29,7 @@ from . import c13, compare, executor, gen, ops
 from .choices import Choices
 
 PROP = "C19"
+FAULT_EVERY = 4  # every 4th run is the fault configuration (pool-level and statement-level faults)
 BATCH = 40
 SHRINK_EVALS = 500
 JOB_TIMEOUT_S = 1800
@@ -40,7 +41,7 @@ VAL_CONTAINERS = ["numpy", "numpy_strided", "numpy_offset", "pandas", "numpy", "
 KEY_CONTAINERS = ["numpy", "numpy_strided", "numpy_readonly", "pandas", "arrow_chunked", "polars"]
 # raw accessors of the grouping itself: what they hand out must not be a writable handle on its state
 ACC_OPS = ["group_ikey", "ikey_count", "count_ikey", "result_index", "key_count", "groups"]
-FN_OPS = ["fn_ema", "fn_ema_grouped", "fn_group_sum", "fn_group_min", "fn_group_first", "fn_group_mean", "fn_cumsum", "fn_cummax", "fn_rolling_sum", "fn_rolling_max", "fn_shift"]
+FN_OPS = ["fn_ema", "fn_ema_grouped", "fn_ema_timed", "fn_ema_grouped_timed", "fn_group_sum", "fn_group_min", "fn_group_first", "fn_group_mean", "fn_cumsum", "fn_cummax", "fn_rolling_sum", "fn_rolling_max", "fn_shift"]
 
 RULE = (
     "one run = one value dtype class + a logical dataset + a container for the key(s) and for every value column drawn from NumPy (contiguous, "
@@ -304,6 +305,12 @@ def gen_fn_op(s: Choices, ds):
     op = {"op": name, "cols": [0], "mask": gen.gen_mask(s, ds, ("none", "bool"))}
     if name in ("fn_ema", "fn_ema_grouped"):
         op["alpha"] = [0.5, 1.0, 0.25][s.draw(3)]
+    if name in ("fn_ema_timed", "fn_ema_grouped_timed"):
+        op["halflife"] = ["2s", "500ms"][s.draw(2)]
+        op["steps"] = [1 + s.draw(3) for _ in range(ds["n"])]
+        op["epoch"] = s.weighted([(2, "2024"), (1, "zero"), (1, "pre1970")])
+        if name == "fn_ema_timed":
+            op["mask"] = {"kind": "none"}
     if name.startswith("fn_rolling") or name == "fn_shift":
         op["window"] = 1 + s.draw(3)
     if name.startswith("fn_group"):
@@ -311,7 +318,7 @@ def gen_fn_op(s: Choices, ds):
     return op
 
 
-def call_fn_op(op, codes, ngroups, values, mask):
+def call_fn_op(op, codes, ngroups, values, mask, times=None):
     from groupby_lib import emas
     from groupby_lib.groupby import numba as nbf
 
@@ -323,6 +330,10 @@ def call_fn_op(op, codes, ngroups, values, mask):
                 return emas.ema(values, alpha=op["alpha"])
             if name == "fn_ema_grouped":
                 return emas.ema_grouped(codes, ngroups, values, alpha=op["alpha"], mask=mask)
+            if name == "fn_ema_timed":
+                return emas.ema(values, halflife=op["halflife"], times=times)
+            if name == "fn_ema_grouped_timed":
+                return emas.ema_grouped(codes, ngroups, values, halflife=op["halflife"], times=times, mask=mask)
             if name.startswith("fn_group_"):
                 f = getattr(nbf, name[3:])
                 return f(codes, values, ngroups, mask=mask, n_threads=op["n_threads"])
@@ -417,9 +428,14 @@ def gen_scenario(scen: Choices, cls, cfg):
     fault = None
     fault_step = None
     if cfg.get("fault_mode"):
-        fault = gen.gen_fault(scen)
-        # a fault with nothing in flight tests nothing: prefer steps that go through the pool
-        cand = [i for i, s_ in enumerate(steps) if s_.get("op", {}).get("op") in ops.BASIC + ops.COMPOSITE] or list(range(nsteps))
+        fault = gen.gen_fault(scen, stmt=True)
+        if fault["kind"] in gen.STMT_KINDS:
+            # a crash / interrupt between two statements: any call of the public API (what is
+            # checked right after it -- buffers, labels and codes -- needs no later step)
+            cand = [i for i, s_ in enumerate(steps) if s_["kind"] in ("op", "failing_call")] or list(range(nsteps))
+        else:
+            # a fault with nothing in flight tests nothing: prefer steps that go through the pool
+            cand = [i for i, s_ in enumerate(steps) if s_.get("op", {}).get("op") in ops.BASIC + ops.COMPOSITE] or list(range(nsteps))
         fault_step = cand[scen.draw(len(cand))]
         fault["k"] = min(fault["k"], 3)
 
@@ -597,6 +613,7 @@ def execute(sc, sched: Choices, cls, cfg):
     owned_codes = own_array(fn_codes, ["numpy", "numpy_strided", "numpy_readonly"][len(steps) % 3])
     fp_codes0 = fingerprints([owned_codes])
 
+    fault_where = None
     for si, step in enumerate(steps):
         kind = step["kind"]
         op = step["op"]
@@ -617,7 +634,7 @@ def execute(sc, sched: Choices, cls, cfg):
             mask_obj = mask
         fp_mask0 = fingerprints([owned_mask]) if owned_mask is not None else None
         owned_times = None
-        if op["op"] == "ema_timed":
+        if op["op"] in ("ema_timed", "fn_ema_timed", "fn_ema_grouped_timed"):
             # the timestamps are a caller-owned buffer too (int64 views of them are taken inside)
             owned_times = own_array(ops.build_times(ds, op), ["numpy", "numpy_strided", "pandas", "numpy_offset"][si % 4])
         fp_times0 = fingerprints([owned_times]) if owned_times is not None else None
@@ -638,7 +655,7 @@ def execute(sc, sched: Choices, cls, cfg):
                     return target.count_ikey(mask_obj)
                 return getattr(target, op["op"])
             if kind == "fn":
-                return call_fn_op(op, owned_codes.obj, fn_ngroups, owned_vals[0].obj, mask_obj)
+                return call_fn_op(op, owned_codes.obj, fn_ngroups, owned_vals[0].obj, mask_obj, times=None if owned_times is None else owned_times.obj)
             values = values_obj(op["cols"])
             m = mask_obj
             if kind == "failing_call":
@@ -653,15 +670,29 @@ def execute(sc, sched: Choices, cls, cfg):
             return ops.call_op(target, op, values, m, dso, times=None if owned_times is None else owned_times.obj, wrappers=facades if target is gb else None, raw_keys=keys_obj(), subset_mask=None if owned_subset is None else owned_subset.obj)
 
         this_fault = fault if (fault is not None and fault_step == si) else None
+        if this_fault is not None and this_fault["kind"] in gen.STMT_KINDS:
+            # traced dry run of the same call on a fresh grouping: scales the fault position
+            dry = executor.LineTracer(None, mode=this_fault.get("mode", 0))
+            ctxd = new_ctx()
+            with executor.use_context(ctxd):
+                _outcome(lambda: (lambda t_: c13._traced(dry, lambda: do_call(t_)))(construct() if kind != "fn" else None))
+            account(ctxd, opname)
+            this_fault = gen.arm_stmt_fault(this_fault, dry.count)
+            probes.add("stmt_fault_armed")
         ctxr = new_ctx(this_fault)
         with executor.use_context(ctxr):
             r1 = _outcome(lambda: do_call(gb))
         account(ctxr, opname)
         if ctxr.fault_fired:
             rec["faults"].append(ctxr.fault_fired)
+            if ctxr.fault_where:
+                fault_where = ctxr.fault_where
+                rec.setdefault("fault_sites", []).append(fault_where)
         if r1[0] == "raise":
             probes.add("failing_step_checked")
         extra = {"step_kind": kind, "outcome_of_step": r1[0], "fault": ctxr.fault_fired or "none", "mask": mask_desc["kind"]}
+        if fault_where:
+            extra["fault_where"] = fault_where
         ok_inputs = check_inputs("inputs_unchanged", opname, extra)
         check_containers(opname, extra)
         if fingerprints([owned_codes]) != fp_codes0:
